@@ -81,6 +81,10 @@ def level(base, small, tier_deps=True):
     # same length that strictly contains its members
     out += [["ounion", "K0", "K0", "K4"], ["ounion", "K0", "K4", "int"], ["ounion", "K4", "K0", "K0"], ["inter", "K0", "K0", "K4"],
             ["inter", "K0", "K4", "P"], ["inter", "K4", "K0", "K0"], ["ounion", "K0", "K4"], ["inter", "K0", "K4"]]
+    # redundant nesting: a combination that has another combination as a direct member and whose other members add nothing
+    out += [["ounion", ["ounion", "K0", "K4"], "K1"], ["ounion", "K1", ["ounion", "K0", "K4"]], ["ounion", ["ounion", "K0", "int"], "K3"],
+            ["inter", ["inter", "K0", "K4"], "O"], ["inter", "O", ["inter", "K0", "K4"]], ["inter", ["inter", "K1", "K4"], "K0"],
+            ["ounion", "K0", "int"], ["inter", "K1", "K4"]]
     # absorbing combinations: one constructed member covers the other
     for a, b in (("K0", "K1"), ("K1", "K3"), ("O", "K4")):
         for mk in (lambda x: ["type", x], lambda x: ["gen", "list", x], lambda x: ["tuple", x], lambda x: ["dep", x, "qa"]):
